@@ -25,6 +25,7 @@ import CelloProofs.Lemmas.FailNest
 import CelloProofs.Lemmas.FailProfile
 import CelloProofs.Lemmas.FailDispatch
 import CelloProofs.Lemmas.FailSort
+import Cello.FailIdx
 
 namespace Cello.Fail
 
@@ -2268,6 +2269,141 @@ theorem C12_failure_atomic_nested (σ σ' : Store) (id : Nat) (op : NOp) (e : Ex
   model" — every raising branch of the model returns its argument — so their content is that the model has the order of the C
   statements.  The theorems of this section tie that order to the source text: a changed guard, a moved mutation, a dropped
   `throw` or a new branch in any mirrored function makes one of them fail to check. -/
+
+/-! ## the index prologues of the C functions, as programs (extension round; `CelloGen.Fail.idx_<Function>`, `Cello/FailIdx.lean`)
+
+  The statements that give the index variable its value in front of the `IndexOutOfBoundsError` guard, and the guard, are extracted
+  as terms and evaluated with the C typing (`int64_t` signed, `size_t` unsigned, 0 / 1 comparisons) on `BitVec 64`.  The theorems below
+  are about those generated definitions: they are what ties `resolve` / `resolveB` / `normIdxPush` of the model — and through them
+  every `get` / `set` / `pop_at` / `push_at` theorem of this file — to the source text.  A normalisation statement left behind twice
+  (seed class c12_n), a dropped one, `>` for `>=`, `nitems - 1`, a cast removed from the guard: the generated term changes and the
+  equation stops holding. -/
+
+open CelloGen.Fail in
+/-- proves `run = resolveB`-style goals about one generated prologue: unfold the evaluator on the (concrete) term, split on the sign
+    tests, close by Boolean reasoning -/
+local macro "idx_prologue" d:ident : tactic =>
+  `(tactic| (simp only [IdxProg.run, IdxProg.index, $d:ident, IE.eval, cvBool, cvLt, resolveB, normIdx, inBounds, normIdxPush, inBoundsIncl,
+               List.foldl, Bool.and_self, Bool.and_true, Bool.and_false, ite_true, ite_false, Bool.false_eq_true]; (repeat' split) <;> simp_all))
+
+/-- **the extracted prologues are inside the fragment the evaluator gives a meaning to**: a local `i` starts as `c_int(key)`, nothing
+    is assigned to `i` behind the guard, and no `+` / `-` has two signed operands (no signed overflow to leave undefined) -/
+theorem C12_index_prologues_in_fragment : ∀ fp ∈ CelloGen.Fail.idxProgs, fp.2.wf = true := by decide
+
+open CelloGen.Fail in
+/-- **C12 (index prologue = model, every function).** For every item count and every 64-bit `c_int(key)`, running the statements of
+    `Array_Get` / `Array_Set` / `Array_Pop_At` / `List_At` / `Tuple_Get` / `Tuple_Set` / `Tuple_Push_At` / `Tuple_Pop_At` as they stand in the
+    source — normalisation(s) of a negative index in `size_t` arithmetic modulo 2^64, conversion back, guard — gives exactly what the
+    model's `resolveB` gives: the same refusals and the same slot. -/
+theorem C12_index_prologue_as_modelled (n : Nat) (k : BitVec 64) :
+    idx_Array_Get.run n k = resolveB n k ∧ idx_Array_Set.run n k = resolveB n k ∧ idx_Array_Pop_At.run n k = resolveB n k ∧
+    idx_List_At.run n k = resolveB n k ∧
+    idx_Tuple_Get.run n k = resolveB n k ∧ idx_Tuple_Set.run n k = resolveB n k ∧ idx_Tuple_Push_At.run n k = resolveB n k ∧
+    idx_Tuple_Pop_At.run n k = resolveB n k := by
+  refine ⟨?_, ?_, ?_, ?_, ?_, ?_, ?_, ?_⟩
+  · idx_prologue idx_Array_Get
+  · idx_prologue idx_Array_Set
+  · idx_prologue idx_Array_Pop_At
+  · idx_prologue idx_List_At
+  · idx_prologue idx_Tuple_Get
+  · idx_prologue idx_Tuple_Set
+  · idx_prologue idx_Tuple_Push_At
+  · idx_prologue idx_Tuple_Pop_At
+
+open CelloGen.Fail in
+/-- **…and `Array_Push_At`**, whose prologue normalises against `nitems + 1` and admits `nitems` itself: the model's `normIdxPush` /
+    `inBoundsIncl` (what `Arr.pushAt` and `Nest.pushAt` branch on) -/
+theorem C12_index_prologue_push_at (n : Nat) (k : BitVec 64) :
+    idx_Array_Push_At.run n k =
+      (if inBoundsIncl n (normIdxPush n k) then .ok (normIdxPush n k).toNat else .raised .IndexOutOfBoundsError) := by
+  idx_prologue idx_Array_Push_At
+
+open CelloGen.Fail in
+/-- **C12 (the source prologues refuse exactly the invalid indices).** With `C12_index_raises_exactly`: for every profiled function
+    but `Array_Push_At`, every `nitems < 2^63` and every 64-bit index (`INT64_MIN` / `INT64_MAX` included), the extracted statements raise
+    `IndexOutOfBoundsError` exactly outside `[-nitems, nitems)` and otherwise address the slot Python-style indexing addresses. -/
+theorem C12_index_prologue_raises_exactly :
+    ∀ fp ∈ CelloGen.Fail.idxProgs, fp.1 ≠ "Array_Push_At" → ∀ n, n < 2 ^ 63 → ∀ k : BitVec 64,
+      fp.2.run n k = (if -(n : Int) ≤ k.toInt ∧ k.toInt < n then .ok (idxOf n k.toInt) else .raised .IndexOutOfBoundsError) := by
+  intro fp hfp hne n hn k
+  have h := C12_index_prologue_as_modelled n k
+  have hr := (C12_index_raises_exactly n hn k).1
+  simp only [CelloGen.Fail.idxProgs, List.mem_cons, List.not_mem_nil, or_false] at hfp
+  rcases hfp with rfl | rfl | rfl | rfl | rfl | rfl | rfl | rfl | rfl
+  · exact h.1.trans hr
+  · exact h.2.1.trans hr
+  · exact h.2.2.1.trans hr
+  · exact absurd rfl hne
+  · exact h.2.2.2.1.trans hr
+  · exact h.2.2.2.2.1.trans hr
+  · exact h.2.2.2.2.2.1.trans hr
+  · exact h.2.2.2.2.2.2.1.trans hr
+  · exact h.2.2.2.2.2.2.2.trans hr
+
+open CelloGen.Fail in
+/-- the model's entry point on an `Int` key is the source prologue: `resolve` = `c_int(key)` then the extracted statements -/
+theorem C12_model_index_is_source_prologue (n : Nat) (key : Int) :
+    resolve n (.int key) = idx_Array_Get.run n (BitVec.ofInt 64 key) ∧ resolve n (.int key) = idx_List_At.run n (BitVec.ofInt 64 key) ∧
+    resolve n (.int key) = idx_Tuple_Pop_At.run n (BitVec.ofInt 64 key) := by
+  have h := C12_index_prologue_as_modelled n (BitVec.ofInt 64 key)
+  simp only [resolve, cInt]
+  exact ⟨h.1.symm, h.2.2.2.1.symm, h.2.2.2.2.2.2.2.symm⟩
+
+/-- a prologue with its normalisation statement written twice (the leftover line of a refactoring) -/
+def doubleNormalised (p : CelloGen.Fail.IdxProg) : CelloGen.Fail.IdxProg :=
+  { p with assigns := p.assigns ++ p.assigns.drop 1 }
+
+/-- **the equation is not vacuous: normalising twice is refused by it.**  With the statement `i = i < 0 ? nitems+i : i` twice in
+    `Array_Set`, index −6 on five items (one past the negative end) becomes 4 and passes the guard — the element is overwritten and
+    nothing is raised — while the model (and the unchanged source: `C12_index_prologue_as_modelled`) refuses it; indices below
+    `-2·nitems` are still refused, which is why a probe "far out of range" does not see it. -/
+theorem C12_index_double_normalisation_refuted :
+    (doubleNormalised CelloGen.Fail.idx_Array_Set).run 5 (BitVec.ofInt 64 (-6)) = .ok 4 ∧
+    resolveB 5 (BitVec.ofInt 64 (-6)) = .raised .IndexOutOfBoundsError ∧
+    CelloGen.Fail.idx_Array_Set.run 5 (BitVec.ofInt 64 (-6)) = .raised .IndexOutOfBoundsError ∧
+    (doubleNormalised CelloGen.Fail.idx_Array_Set).run 5 (BitVec.ofInt 64 (-11)) = .raised .IndexOutOfBoundsError := by decide
+
+-- non-vacuity: valid negative, valid positive, both ends refused, INT64_MIN, and push_at admitting `nitems`
+example : CelloGen.Fail.idx_Array_Set.run 5 (BitVec.ofInt 64 (-5)) = .ok 0 ∧ CelloGen.Fail.idx_List_At.run 5 4 = .ok 4 ∧
+    CelloGen.Fail.idx_Tuple_Get.run 5 5 = .raised .IndexOutOfBoundsError ∧
+    CelloGen.Fail.idx_Array_Get.run 5 (BitVec.ofInt 64 (-(2 ^ 63))) = .raised .IndexOutOfBoundsError ∧
+    CelloGen.Fail.idx_Array_Push_At.run 5 5 = .ok 5 ∧ CelloGen.Fail.idx_Tuple_Push_At.run 5 5 = .raised .IndexOutOfBoundsError ∧
+    CelloGen.Fail.idx_Array_Push_At.run 5 (BitVec.ofInt 64 (-6)) = .ok 0 := by decide
+
+/-! ### …and the message of the refusal -/
+
+/-- the text of an index refusal: `Index '<shown>' out of bounds for <Type> of size <n>.` -/
+def idxText (ty : String) (shown : Int) (n : Nat) : String :=
+  "Index '" ++ (i32Text shown ++ ("' out of bounds for " ++ ty ++ " of size " ++ (i32Text n ++ ".")))
+
+open CelloGen.Fail in
+/-- **C12 (the message of a refusal is the text of the throw site).** The exception's message (`current(Exception)->msg`, written by
+    `exception_throw` through `print_to_with`) of a refused index of `get` / `set` / `pop_at` / `push_at` and of an empty `pop` is the
+    format of the refusing function's `throw` as it stands in the source (`CelloGen.Fail.throwSites`) rendered with its arguments, for
+    every item count and every key: Array and Tuple report the key **as passed**, `List_At` the **normalised** index
+    (`$(Int, i)` after `i = i < 0 ? nitems+i : i`); `%i` prints the low 32 bits (`i32Text`). -/
+theorem C12_refusal_message (n : Nat) (key v : Int) :
+    SeqK.refusalMsg .arr n (.get (.int key)) = some (idxText "Array" (BitVec.ofInt 64 key).toInt n) ∧
+    SeqK.refusalMsg .arr n (.set (.int key) (.int v)) = some (idxText "Array" (BitVec.ofInt 64 key).toInt n) ∧
+    SeqK.refusalMsg .arr n (.popAt (.int key)) = some (idxText "Array" (BitVec.ofInt 64 key).toInt n) ∧
+    SeqK.refusalMsg .arr n (.pushAt (.int v) (.int key)) = some (idxText "Array" (BitVec.ofInt 64 key).toInt n) ∧
+    SeqK.refusalMsg .tup n (.get (.int key)) = some (idxText "Tuple" (BitVec.ofInt 64 key).toInt n) ∧
+    SeqK.refusalMsg .tup n (.set (.int key) (.int v)) = some (idxText "Tuple" (BitVec.ofInt 64 key).toInt n) ∧
+    SeqK.refusalMsg .tup n (.popAt (.int key)) = some (idxText "Tuple" (BitVec.ofInt 64 key).toInt n) ∧
+    SeqK.refusalMsg .tup n (.pushAt (.int v) (.int key)) = some (idxText "Tuple" (BitVec.ofInt 64 key).toInt n) ∧
+    SeqK.refusalMsg .lst n (.get (.int key)) = some (idxText "List" (normIdx n (BitVec.ofInt 64 key)).toInt n) ∧
+    SeqK.refusalMsg .lst n (.popAt (.int key)) = some (idxText "List" (normIdx n (BitVec.ofInt 64 key)).toInt n) ∧
+    SeqK.refusalMsg .arr n .pop = some "Cannot pop. Array is empty!" ∧ SeqK.refusalMsg .lst n .pop = some "Cannot pop. List is empty!" ∧
+    SeqK.refusalMsg .tup n .pop = some "Cannot pop. Tuple is empty!" := by
+  refine ⟨?_, ?_, ?_, ?_, ?_, ?_, ?_, ?_, ?_, ?_, ?_, ?_, ?_⟩ <;>
+    simp [SeqK.refusalMsg, SeqK.indexFn, Op.indexArg, SeqK.popFn, siteMsg, throwSites, argValue, pieces, renderPieces, idxText,
+          SeqK.indexAtThrow, idxProgs, List.lookup, IdxProg.index, idx_List_At, IE.eval, cvBool, cvLt, normIdx] <;> (try (split <;> rfl))
+
+-- non-vacuity: `%i` truncates to 32 bits; the List reports the normalised index, the Array the key as passed; a String key has no index message
+example : SeqK.refusalMsg .tup 3 (.get (.int 4294967296)) = some "Index '0' out of bounds for Tuple of size 3." ∧
+    SeqK.refusalMsg .lst 3 (.get (.int (-7))) = some "Index '-4' out of bounds for List of size 3." ∧
+    SeqK.refusalMsg .arr 3 (.get (.int (-7))) = some "Index '-7' out of bounds for Array of size 3." ∧
+    SeqK.refusalMsg .arr 3 (.get (.str [])) = none := by decide
 
 /-- **`Table_Set` validates its arguments before it replaces the slot array** (read from the generated token lists; placed in front of
     `C12_source_profile` so that a change of this order is named by its own obligation): on a table that has slots no token of
